@@ -13,6 +13,7 @@
 -/
 import ClarabelProofs.Lemmas.SolverStaleCones
 import ClarabelProofs.Lemmas.InfoLengths
+import ClarabelProofs.Lemmas.SolveInitPointCore
 
 namespace Clarabel.Solver
 open Clarabel Info Residuals
@@ -1256,12 +1257,12 @@ theorem kktSolve_shape {S : KktSys α} {lhs rhs vars : Vars α} {data : ProblemD
     · show S.workx.size = ξm.size
       rw [axpbyE_size hξm, axpbyE_size hξ, copyInto_size hwx]
 
-theorem solveInitialPoint_shape {S : KktSys α} {vars : Vars α} {data : ProblemData α} {st : LinSettings α}
-    {r : Bool × Vars α × KktSys α} (h : S.solveInitialPoint vars data st = .ok r) :
+theorem solveInitialPointCore_shape {S : KktSys α} {vars : Vars α} {data : ProblemData α} {st : LinSettings α}
+    {r : Bool × Vars α × KktSys α} (h : S.solveInitialPointCore vars data st = .ok r) :
     VarsShape vars r.2.1 ∧ KShape S r.2.2 := by
   have hwx : (S.workx.map (fun _ => (0 : α))).size = S.workx.size := Array.size_map ..
   have hneg : ∀ s : Array α, (Vec.negate s).size = s.size := fun s => Array.size_map ..
-  unfold KktSys.solveInitialPoint at h
+  unfold KktSys.solveInitialPointCore at h
   split at h
   · -- LP initialization
     obtain ⟨workz, hwz, h⟩ := bind_ok_inv h
@@ -1349,6 +1350,13 @@ theorem solveInitialPoint_shape {S : KktSys α} {vars : Vars α} {data : Problem
       rw [hneg]; exact hsz
     · show S.workx.size = (Vec.negate data.q).size
       rw [hneg]; exact hgq
+
+theorem solveInitialPoint_shape {S : KktSys α} {vars : Vars α} {data : ProblemData α} {st : LinSettings α}
+    {r : Bool × Vars α × KktSys α} (h : S.solveInitialPoint vars data st = .ok r) :
+    VarsShape vars r.2.1 ∧ KShape S r.2.2 := by
+  rw [KktSys.solveInitialPoint_eq_core] at h
+  obtain ⟨h1, h2⟩ := solveInitialPointCore_shape h
+  exact ⟨VarsShape.trans ⟨(zeroXSZ_size_x vars).symm, (zeroXSZ_size_s vars).symm, (zeroXSZ_size_z vars).symm⟩ h1, h2⟩
 
 theorem kktNumerics_shape {st : Settings α} {S : SolverSt α} {cones : List (ConeSt α)} {mu : α}
     {iter : Nat} {k : KktOut α} (hok : ConesOk cones) (h : kktNumerics st S cones mu iter = .ok k) :
